@@ -181,6 +181,16 @@ DepEnum(e, v, rc) ==
      ~ev.dep.d /\ UpdType(e, [T(e) EXCEPT !.values = Replace(T(e).values, v, [ev EXCEPT !.dep = Dep(rc)])])
 
 \* ------------------------------------------------------------------ directives
+\* every place where a custom directive is applied, as <<where..., tags>>
+AllTags ==
+  UNION {{<<"t", S.types[i].name, S.types[i].tags>>}
+           \cup {<<"f", S.types[i].name, S.types[i].fields[j].name, S.types[i].fields[j].tags>> : j \in DOMAIN S.types[i].fields}
+           \cup UNION {{<<"a", S.types[i].name, S.types[i].fields[j].name, S.types[i].fields[j].args[a].name, S.types[i].fields[j].args[a].tags>> :
+                          a \in DOMAIN S.types[i].fields[j].args} : j \in DOMAIN S.types[i].fields}
+           \cup {<<"i", S.types[i].name, S.types[i].inputs[j].name, S.types[i].inputs[j].tags>> : j \in DOMAIN S.types[i].inputs}
+           \cup {<<"v", S.types[i].name, S.types[i].values[j].name, S.types[i].values[j].tags>> : j \in DOMAIN S.types[i].values}
+         : i \in DOMAIN S.types}
+Applied(dn) == \E x \in AllTags : dn \in Range(x[Len(x)])
 UpdDir(d) == S' = [S EXCEPT !.dirs = Replace(S.dirs, d.name, d)]
 AddDir(slot) ==
   /\ On("directives") /\ ~Has(S.dirs, slot.name)
@@ -191,7 +201,7 @@ AddDirArg(dn, a, ref, dv) ==
          iv == InputVal(a, ref, dv) IN
      /\ ~Has(d.args, a)
      \* a directive that is already applied somewhere only gets optional arguments
-     /\ Required(iv) => ~\E i \in DOMAIN S.types : \E j \in DOMAIN S.types[i].fields : dn \in Range(S.types[i].fields[j].tags)
+     /\ Required(iv) => ~Applied(dn)
      /\ UpdDir([d EXCEPT !.args = Append(d.args, iv)])
 DepDirArg(dn, a, rc) ==
   /\ On("deprecate") /\ Has(S.dirs, dn) /\ Has(Find(S.dirs, dn).args, a)
@@ -199,7 +209,32 @@ DepDirArg(dn, a, rc) ==
          iv == Find(d.args, a) IN
      /\ ~iv.dep.d /\ ~Required(iv)
      /\ UpdDir([d EXCEPT !.args = Replace(d.args, a, [iv EXCEPT !.dep = Dep(rc)])])
-\* apply a custom directive to a field definition (invisible to introspection; sits next to @deprecated in the SDL)
+\* Type-system directive applications (`scalar Money @format`, `type T @tag`, `RED @tag`, `a: Int @tag` ...): invisible to
+\* introspection (only @deprecated / @specifiedBy are reflected) and must not disturb it.
+CanApply(dn, loc, tags) ==
+  /\ On("tags") /\ Has(S.dirs, dn)
+  /\ LET d == Find(S.dirs, dn) IN
+     /\ loc \in Range(d.locs)
+     /\ \A a \in DOMAIN d.args : ~Required(d.args[a])
+     /\ Len(tags) < 2 /\ (dn \in Range(tags) => d.rep)
+TagType(tn, dn) == CanApply(dn, KindLoc(T(tn).kind), T(tn).tags) /\ UpdType(tn, [T(tn) EXCEPT !.tags = Append(T(tn).tags, dn)])
+TagEnumValue(e, v, dn) ==
+  /\ T(e).kind = "ENUM" /\ Has(T(e).values, v)
+  /\ LET ev == Find(T(e).values, v) IN
+     /\ CanApply(dn, "ENUM_VALUE", ev.tags)
+     /\ UpdType(e, [T(e) EXCEPT !.values = Replace(T(e).values, v, [ev EXCEPT !.tags = Append(ev.tags, dn)])])
+TagArg(tn, f, a, dn) ==
+  /\ T(tn).kind \in {"OBJECT", "INTERFACE"} /\ Has(T(tn).fields, f) /\ Has(Find(T(tn).fields, f).args, a)
+  /\ LET fd == Find(T(tn).fields, f)
+         iv == Find(fd.args, a) IN
+     /\ CanApply(dn, "ARGUMENT_DEFINITION", iv.tags)
+     /\ UpdField(T(tn), f, [fd EXCEPT !.args = Replace(fd.args, a, [iv EXCEPT !.tags = Append(iv.tags, dn)])])
+TagInput(tn, x, dn) ==
+  /\ T(tn).kind = "INPUT_OBJECT" /\ Has(T(tn).inputs, x)
+  /\ LET iv == Find(T(tn).inputs, x) IN
+     /\ CanApply(dn, "INPUT_FIELD_DEFINITION", iv.tags)
+     /\ UpdType(tn, [T(tn) EXCEPT !.inputs = Replace(T(tn).inputs, x, [iv EXCEPT !.tags = Append(iv.tags, dn)])])
+\* ... and to a field definition (sits next to @deprecated in the SDL)
 Tag(tn, f, dn) ==
   /\ On("tags") /\ T(tn).kind \in {"OBJECT", "INTERFACE"} /\ Has(T(tn).fields, f) /\ Has(S.dirs, dn)
   /\ LET d == Find(S.dirs, dn)
@@ -262,6 +297,11 @@ Act(c) ==
   \/ c = "dirarg" /\ \E dn \in Pick(NameSet(S.dirs)) : \E a \in Pick(ArgNames) : \E ref \in Pick(InRefs) :
                        LET ds == Defaults(ref) IN \E k \in Pick(0..Len(ds)) : AddDirArg(dn, a, ref, DefAt(ds, k))
   \/ c = "tag" /\ \E tn \in Pick(NamesOfKind({"OBJECT", "INTERFACE"})) : \E f \in Pick(FieldsOf(tn)) : \E dn \in Pick(NameSet(S.dirs)) : Tag(tn, f, dn)
+  \/ c = "tag.type" /\ \E tn \in Pick(TN) : \E dn \in Pick(NameSet(S.dirs)) : TagType(tn, dn)
+  \/ c = "tag.enum" /\ \E e \in Pick(NamesOfKind({"ENUM"})) : \E v \in Pick(NameSet(T(e).values)) : \E dn \in Pick(NameSet(S.dirs)) : TagEnumValue(e, v, dn)
+  \/ c = "tag.arg" /\ \E tn \in Pick(NamesOfKind({"OBJECT", "INTERFACE"})) : \E f \in Pick(FieldsOf(tn)) : \E a \in Pick(ArgsOf(tn, f)) :
+                        \E dn \in Pick(NameSet(S.dirs)) : TagArg(tn, f, a, dn)
+  \/ c = "tag.input" /\ \E tn \in Pick(NamesOfKind({"INPUT_OBJECT"})) : \E x \in Pick(NameSet(T(tn).inputs)) : \E dn \in Pick(NameSet(S.dirs)) : TagInput(tn, x, dn)
   \/ c = "desc.type" /\ \E ds \in Pick(Descs) : \E tn \in Pick(TN) : DescType(tn, ds)
   \/ c = "desc.field" /\ \E ds \in Pick(Descs) : \E tn \in Pick(NamesOfKind({"OBJECT", "INTERFACE"})) : \E f \in Pick(FieldsOf(tn)) : DescField(tn, f, ds)
   \/ c = "desc.arg" /\ \E ds \in Pick(Descs) : \E tn \in Pick(NamesOfKind({"OBJECT", "INTERFACE"})) : \E f \in Pick(FieldsOf(tn)) :
@@ -274,12 +314,13 @@ Act(c) ==
   \/ c = "url" /\ \E tn \in Pick(NamesOfKind({"SCALAR"})) : \E url \in Pick(Urls) : SpecifiedBy(tn, url)
 
 Classes == {"type", "root", "field", "arg", "input", "implement", "narrow", "member", "enumval",
-            "dep.field", "dep.arg", "dep.input", "dep.enum", "dep.dirarg", "dir", "dirarg", "tag",
+            "dep.field", "dep.arg", "dep.input", "dep.enum", "dep.dirarg", "dir", "dirarg", "tag", "tag.type", "tag.enum", "tag.arg", "tag.input",
             "desc.type", "desc.field", "desc.arg", "desc.input", "desc.enum", "desc.dir", "desc.dirarg", "desc.schema", "url"}
 \* sampling weights: structure (types, fields, arguments, implementations) is preferred over decoration
 Weighted == {<<"type", i>> : i \in 1..8} \cup {<<"field", i>> : i \in 1..6} \cup {<<"arg", i>> : i \in 1..6}
               \cup {<<"input", i>> : i \in 1..4} \cup {<<"implement", i>> : i \in 1..6} \cup {<<"member", i>> : i \in 1..2}
-              \cup {<<"enumval", i>> : i \in 1..2} \cup {<<"dirarg", i>> : i \in 1..2} \cup {<<c, 1>> : c \in Classes}
+              \cup {<<"enumval", i>> : i \in 1..2} \cup {<<"dirarg", i>> : i \in 1..2} \cup {<<"tag.type", i>> : i \in 1..3}
+              \cup {<<"dir", i>> : i \in 1..2} \cup {<<c, 1>> : c \in Classes}
 \* sampling: every weighted copy draws its own random instance, TLC then picks one successor uniformly
 Chosen == IF Sampling THEN Weighted ELSE {<<c, 1>> : c \in Classes}
 
@@ -290,8 +331,7 @@ Next ==
 
 GenSpec == Init /\ [][Next]_gvars
 \* VIEW: schemas that differ only in the order of definitions are one state (one representative is explored)
-GenView == <<IFacts(IntrospectRaw(S, TRUE)), S.sd, n,
-             UNION {{<<S.types[i].name, S.types[i].fields[j].name, S.types[i].fields[j].tags>> : j \in DOMAIN S.types[i].fields} : i \in DOMAIN S.types}>>
+GenView == <<IFacts(IntrospectRaw(S, TRUE)), S.sd, n, AllTags>>
 
 \* ------------------------------------------------------------------ theorems checked by TLC (model checking step)
 GenWF == WF(S)
